@@ -200,46 +200,143 @@ Proof.
 Qed.
 Print Assumptions c13_head_reach_countries.
 
-(* ------------------------------------------------------------------ numeric overrides: frame (evaluated on the witness configurations) *)
-(* dispatch with the extra option differs from dispatch without it at most at the `allowed` constants; the time
-   constants and flags are identical; `expect` lists the values the named constants must have afterwards.
-   PARTIAL: a kernel evaluation of the model on the two witness configurations for the listed values, not a
-   statement for every dictionary (the general statement is covered by the differential and the audit only). *)
-Definition frame_ok (cfg : options * row) (extra : options) (allowed : list string) (expect : dict) : bool :=
-  match dispatch (fst cfg) (snd cfg), dispatch (fst cfg ++ extra)%list (snd cfg) with
-  | DOk s0, DOk s1 =>
-    forallb (fun k => str_mem k allowed ||
-                      match lookup k (consts s0), lookup k (consts s1) with
-                      | Some a, Some b => value_close 0 a b
-                      | None, None => true
-                      | _, _ => false
-                      end) (map fst (consts s0) ++ map fst (consts s1))%list &&
-    forallb (fun kv => match lookup (fst kv) (consts s1) with Some v => value_close 0 (snd kv) v | None => false end) expect &&
-    dict_close 0 (tconsts s0) (tconsts s1) && flags_same (flags s0) (flags s1)
-  | _, _ => false
-  end.
+(* ------------------------------------------------------------------ numeric overrides: frame *)
+(* For EVERY option dictionary that dispatch accepts and every country row: adding ONE numeric override (a key the
+   dictionary does not have yet) gives a result that agrees with the result without it in flags, description,
+   IS_GLOBAL_ANALYSIS, time constants and in every constant outside the named one(s);  Rel N s s' says exactly that,
+   N being the named region: Nof Kc = the constant Kc (and sub-entries "Kc.x", which a scalar does not have),
+   Nlist l = the listed constants.  Out-of-range values are rejected.  Proved from lookup/update frame lemmas over
+   the generated override blocks (Gen/Setters.overrides), not by evaluation. *)
 
-Definition year_keys (p : string) : list string :=
-  map (fun i => p ++ i) ["1"; "2"; "3"; "4"; "5"; "6"; "7"; "8"; "9"; "10"; "11"].
-
-Definition frame_cases : list (options * list string * dict) :=
-  ([ ([("MINIMUM_PERCENT_FED_BEFORE_NONHUMAN_CONSUMPTION_ALLOWED", ONum 0)],
-     ["MINIMUM_PERCENT_FED_BEFORE_NONHUMAN_CONSUMPTION_ALLOWED"], [("MINIMUM_PERCENT_FED_BEFORE_NONHUMAN_CONSUMPTION_ALLOWED", VNum 0)]);
-    ([("MINIMUM_PERCENT_FED_BEFORE_NONHUMAN_CONSUMPTION_ALLOWED", ONum (75#2))],
-     ["MINIMUM_PERCENT_FED_BEFORE_NONHUMAN_CONSUMPTION_ALLOWED"], [("MINIMUM_PERCENT_FED_BEFORE_NONHUMAN_CONSUMPTION_ALLOWED", VNum (75#2))]);
-    ([("RATIO_STOCKS_UNTOUCHED", ONum (1#4))], ["RATIO_STOCKS_UNTOUCHED"], [("RATIO_STOCKS_UNTOUCHED", VNum (1#4))]);
-    ([("RATIO_STOCKS_UNTOUCHED", ONum 1)], ["RATIO_STOCKS_UNTOUCHED"], [("RATIO_STOCKS_UNTOUCHED", VNum 1)]);
-    ([("CROP_PRODUCTION_MULTIPLIER", ONum (3#2))], year_keys "RATIO_CROPS_YEAR", []);
-    ([("GRASSES_PRODUCTION_MULTIPLIER", ONum (1#2))], year_keys "RATIO_GRASSES_YEAR", []);
-    ([("kg_meat_per_large_animal", ONum (423#2))], ["kg_meat_per_large_animal"], [("kg_meat_per_large_animal", VNum (423#2))]) ]
-  ++ map (fun c => ([(c, ONum (24691#2))], [(c ++ "_start")%string], [((c ++ "_start")%string, VNum 12345)])) species_head_columns)%list.
-
-Theorem c13_overrides_frame_witness : forall cfg ex, In cfg witness_configs -> In ex frame_cases ->
-  frame_ok cfg (fst (fst ex)) (snd (fst ex)) (snd ex) = true.
+(* '<species>_head' for every species column of the head-count table: exactly '<species>_head_start' := int(q) *)
+Theorem c13_override_head : forall c, In c species_head_columns ->
+  forall opts r s q, dispatch opts r = DOk s -> lookup c opts = None ->
+  exists s', dispatch (opts ++ [(c, ONum q)])%list r = DOk s' /\ Rel (Nof (c ++ "_start")) s s' /\
+             lookup (c ++ "_start") (consts s') = Some (VNum (Qtrunc q)).
 Proof.
-  assert (H : forallb (fun cfg => forallb (fun ex => frame_ok cfg (fst (fst ex)) (snd (fst ex)) (snd ex)) frame_cases)
-                      witness_configs = true) by (vm_compute; reflexivity).
-  intros cfg ex Hc He. rewrite forallb_forall in H. specialize (H cfg Hc). cbv beta in H.
-  rewrite forallb_forall in H. exact (H ex He).
+  intros c Hc opts r s q H HK. pose proof head_certs as C. rewrite forallb_forall in C. specialize (C c Hc).
+  unfold head_cert in C. apply andb_true_iff in C. destruct C as [C1 C2].
+  destruct (trigger_of c) as [ovx|] eqn:T; [|discriminate]. destruct ovx as [pat suf [|]| |]; try discriminate.
+  exact (simple_frame c _ _ C1 T opts r s q H HK).
 Qed.
-Print Assumptions c13_overrides_frame_witness.
+Print Assumptions c13_override_head.
+
+Theorem c13_override_kg_meat : forall opts r s q, dispatch opts r = DOk s -> lookup "kg_meat_per_large_animal" opts = None ->
+  exists s', dispatch (opts ++ [("kg_meat_per_large_animal", ONum q)])%list r = DOk s' /\
+             Rel (Nof "kg_meat_per_large_animal") s s' /\ lookup "kg_meat_per_large_animal" (consts s') = Some (VNum q).
+Proof.
+  assert (C : simple_cert "kg_meat_per_large_animal" "kg_meat_per_large_animal" = true) by (vm_compute; reflexivity).
+  assert (T : trigger_of "kg_meat_per_large_animal" = Some (OvSubstr "kg_meat_per_large_animal" "" false)) by (vm_compute; reflexivity).
+  intros opts r s q H HK. exact (simple_frame _ _ _ C T opts r s q H HK).
+Qed.
+Print Assumptions c13_override_kg_meat.
+
+Theorem c13_override_min_percent_fed : forall opts r s q, dispatch opts r = DOk s ->
+  lookup "MINIMUM_PERCENT_FED_BEFORE_NONHUMAN_CONSUMPTION_ALLOWED" opts = None ->
+  if in_range 0 q 100
+  then exists s', dispatch (opts ++ [("MINIMUM_PERCENT_FED_BEFORE_NONHUMAN_CONSUMPTION_ALLOWED", ONum q)])%list r = DOk s' /\
+             Rel (Nof "MINIMUM_PERCENT_FED_BEFORE_NONHUMAN_CONSUMPTION_ALLOWED") s s' /\
+             lookup "MINIMUM_PERCENT_FED_BEFORE_NONHUMAN_CONSUMPTION_ALLOWED" (consts s') = Some (VNum q)
+  else dispatch (opts ++ [("MINIMUM_PERCENT_FED_BEFORE_NONHUMAN_CONSUMPTION_ALLOWED", ONum q)])%list r = DRej AssertRejected.
+Proof.
+  assert (C : simple_cert "MINIMUM_PERCENT_FED_BEFORE_NONHUMAN_CONSUMPTION_ALLOWED"
+                          "MINIMUM_PERCENT_FED_BEFORE_NONHUMAN_CONSUMPTION_ALLOWED" = true) by (vm_compute; reflexivity).
+  assert (T : trigger_of "MINIMUM_PERCENT_FED_BEFORE_NONHUMAN_CONSUMPTION_ALLOWED" =
+              Some (OvSet "MINIMUM_PERCENT_FED_BEFORE_NONHUMAN_CONSUMPTION_ALLOWED" 0 100)) by (vm_compute; reflexivity).
+  intros opts r s q H HK. exact (simple_frame _ _ _ C T opts r s q H HK).
+Qed.
+Print Assumptions c13_override_min_percent_fed.
+
+Theorem c13_override_ratio_stocks_untouched : forall opts r s q, dispatch opts r = DOk s ->
+  lookup "RATIO_STOCKS_UNTOUCHED" opts = None ->
+  if in_range 0 q 1
+  then exists s', dispatch (opts ++ [("RATIO_STOCKS_UNTOUCHED", ONum q)])%list r = DOk s' /\
+             Rel (Nof "RATIO_STOCKS_UNTOUCHED") s s' /\ lookup "RATIO_STOCKS_UNTOUCHED" (consts s') = Some (VNum q)
+  else dispatch (opts ++ [("RATIO_STOCKS_UNTOUCHED", ONum q)])%list r = DRej AssertRejected.
+Proof.
+  assert (C : simple_cert "RATIO_STOCKS_UNTOUCHED" "RATIO_STOCKS_UNTOUCHED" = true) by (vm_compute; reflexivity).
+  assert (T : trigger_of "RATIO_STOCKS_UNTOUCHED" = Some (OvSet "RATIO_STOCKS_UNTOUCHED" 0 1)) by (vm_compute; reflexivity).
+  intros opts r s q H HK. exact (simple_frame _ _ _ C T opts r s q H HK).
+Qed.
+Print Assumptions c13_override_ratio_stocks_untouched.
+
+(* multipliers: years 1..10 are multiplied (they must be numbers, which every crop_disruption / grasses setter
+   guarantees - hypothesis stated explicitly, see the Example below); year 11 is multiplied when present *)
+Definition ten_years (p : string) : list string := map (fun i => p ++ i) ["1"; "2"; "3"; "4"; "5"; "6"; "7"; "8"; "9"; "10"].
+
+Theorem c13_override_crop_multiplier : forall opts r s m, dispatch opts r = DOk s ->
+  lookup "CROP_PRODUCTION_MULTIPLIER" opts = None ->
+  if in_range 0 m 10
+  then (forall k, In k (ten_years "RATIO_CROPS_YEAR") -> numeric_at s k) ->
+       exists s', dispatch (opts ++ [("CROP_PRODUCTION_MULTIPLIER", ONum m)])%list r = DOk s' /\
+             Rel (Nlist (ten_years "RATIO_CROPS_YEAR" ++ ["RATIO_CROPS_YEAR11"])) s s' /\
+             forall k x, In k (ten_years "RATIO_CROPS_YEAR") -> lookup k (consts s) = Some (VNum x) ->
+                              lookup k (consts s') = Some (VNum (x * m))
+  else dispatch (opts ++ [("CROP_PRODUCTION_MULTIPLIER", ONum m)])%list r = DRej AssertRejected.
+Proof.
+  assert (C : mul_cert "CROP_PRODUCTION_MULTIPLIER" = true) by (vm_compute; reflexivity).
+  assert (T : trigger_of "CROP_PRODUCTION_MULTIPLIER" =
+              Some (OvMul "CROP_PRODUCTION_MULTIPLIER" 0 10 (ten_years "RATIO_CROPS_YEAR") ["RATIO_CROPS_YEAR11"])) by (vm_compute; reflexivity).
+  intros opts r s m H HK. exact (mul_frame _ _ _ _ _ _ C T opts r s m H HK).
+Qed.
+Print Assumptions c13_override_crop_multiplier.
+
+Theorem c13_override_grasses_multiplier : forall opts r s m, dispatch opts r = DOk s ->
+  lookup "GRASSES_PRODUCTION_MULTIPLIER" opts = None ->
+  if in_range 0 m 10
+  then (forall k, In k (ten_years "RATIO_GRASSES_YEAR") -> numeric_at s k) ->
+       exists s', dispatch (opts ++ [("GRASSES_PRODUCTION_MULTIPLIER", ONum m)])%list r = DOk s' /\
+             Rel (Nlist (ten_years "RATIO_GRASSES_YEAR" ++ ["RATIO_GRASSES_YEAR11"])) s s' /\
+             forall k x, In k (ten_years "RATIO_GRASSES_YEAR") -> lookup k (consts s) = Some (VNum x) ->
+                              lookup k (consts s') = Some (VNum (x * m))
+  else dispatch (opts ++ [("GRASSES_PRODUCTION_MULTIPLIER", ONum m)])%list r = DRej AssertRejected.
+Proof.
+  assert (C : mul_cert "GRASSES_PRODUCTION_MULTIPLIER" = true) by (vm_compute; reflexivity).
+  assert (T : trigger_of "GRASSES_PRODUCTION_MULTIPLIER" =
+              Some (OvMul "GRASSES_PRODUCTION_MULTIPLIER" 0 10 (ten_years "RATIO_GRASSES_YEAR") ["RATIO_GRASSES_YEAR11"])) by (vm_compute; reflexivity).
+  intros opts r s m H HK. exact (mul_frame _ _ _ _ _ _ C T opts r s m H HK).
+Qed.
+Print Assumptions c13_override_grasses_multiplier.
+
+(* the hypothesis of the two multiplier theorems is met on the witness configurations *)
+Example c13_multiplier_hypothesis_met :
+  forallb (fun cfg => match dispatch (fst cfg) (snd cfg) with
+                      | DOk s => forallb (fun k => match lookup k (consts s) with Some (VNum _) => true | _ => false end)
+                                         (ten_years "RATIO_CROPS_YEAR" ++ ten_years "RATIO_GRASSES_YEAR")
+                      | DRej _ => false
+                      end) witness_configs = true.
+Proof. vm_compute. reflexivity. Qed.
+
+(* two single-constant overrides that name different constants commute: both orders are accepted and give the same
+   flags, description, time constants and the same value for every constant (sub-entries of the two scalars aside).
+   simple_cert / trigger_of are the table-checked facts used above; they hold for every species head-count option,
+   kg_meat_per_large_animal, MINIMUM_PERCENT_FED_BEFORE_NONHUMAN_CONSUMPTION_ALLOWED and RATIO_STOCKS_UNTOUCHED
+   (c13_single_constant_overrides). *)
+Theorem c13_overrides_commute : forall K1 Kc1 ovx1 K2 Kc2 ovx2,
+  simple_cert K1 Kc1 = true -> trigger_of K1 = Some ovx1 ->
+  simple_cert K2 Kc2 = true -> trigger_of K2 = Some ovx2 ->
+  K1 <> K2 -> Kc1 <> Kc2 ->
+  forall opts r s q1 q2, dispatch opts r = DOk s -> lookup K1 opts = None -> lookup K2 opts = None ->
+  simple_ok ovx1 q1 = true -> simple_ok ovx2 q2 = true ->
+  exists s12 s21,
+    dispatch ((opts ++ [(K1, ONum q1)]) ++ [(K2, ONum q2)])%list r = DOk s12 /\
+    dispatch ((opts ++ [(K2, ONum q2)]) ++ [(K1, ONum q1)])%list r = DOk s21 /\
+    same_shell s12 s21 /\
+    forall k, prefix (Kc1 ++ ".") k = false -> prefix (Kc2 ++ ".") k = false ->
+              lookup k (consts s12) = lookup k (consts s21).
+Proof. exact simple_commute. Qed.
+Print Assumptions c13_overrides_commute.
+
+Theorem c13_single_constant_overrides :
+  (forall c, In c species_head_columns -> simple_cert c (c ++ "_start") = true /\ exists ovx, trigger_of c = Some ovx /\ forall q, simple_ok ovx q = true) /\
+    simple_cert "kg_meat_per_large_animal" "kg_meat_per_large_animal" = true /\
+    simple_cert "MINIMUM_PERCENT_FED_BEFORE_NONHUMAN_CONSUMPTION_ALLOWED" "MINIMUM_PERCENT_FED_BEFORE_NONHUMAN_CONSUMPTION_ALLOWED" = true /\
+    simple_cert "RATIO_STOCKS_UNTOUCHED" "RATIO_STOCKS_UNTOUCHED" = true.
+Proof.
+  split; [|repeat split; vm_compute; reflexivity].
+  intros c Hc. pose proof head_certs as C. rewrite forallb_forall in C. specialize (C c Hc).
+  unfold head_cert in C. apply andb_true_iff in C. destruct C as [C1 C2]. split; [exact C1|].
+  destruct (trigger_of c) as [ovx|]; [|discriminate]. destruct ovx as [pat suf [|]| |]; try discriminate.
+  eexists; split; [reflexivity|intro q; reflexivity].
+Qed.
+Print Assumptions c13_single_constant_overrides.
